@@ -20,6 +20,7 @@ void harness(void)
   ares_status_t  st;
   int            tok, sibtok = -1, existing, rotate, k, q_requeued = 0;
   ares_server_t *best_first;
+  size_t         old_total0 = 0;
 
   M_init();
   M_ch.flags               = ARES_FLAG_STAYOPEN | (USEVC ? ARES_FLAG_USEVC : 0);
@@ -55,6 +56,7 @@ void harness(void)
       M_attach(sib, old, 1005);
     }
   }
+  if (old != NULL) old_total0 = old->total_queries;
   q            = M_new_query();
   tok          = M_ntok - 1;
   q->using_tcp = (M_ch.flags & ARES_FLAG_USEVC) ? ARES_TRUE : ARES_FALSE;
@@ -94,7 +96,14 @@ void harness(void)
     VP_ASSERT(((q->conn->flags & ARES_CONN_FLAG_TCP) != 0) == (q->using_tcp == ARES_TRUE), "transport matches the request's TCP flag");
     VP_ASSERT(q->conn->server->consec_failures == minf, "attempt goes to a server with the fewest consecutive failures");
     if (!rotate) VP_ASSERT(q->conn->server == best_first, "without rotation: the first such server in configuration order");
-    if (q->conn == old) VP_WITNESS("reused existing connection"); else VP_WITNESS("opened a connection");
+    /* the per-socket use count is what enforces udp_max_queries: it must count EVERY request carried, retries included */
+    if (q->conn == old) {
+      VP_ASSERT(old->total_queries == old_total0 + 1, "every request carried by a socket is counted against its limit");
+      VP_WITNESS("reused existing connection");
+    } else {
+      VP_ASSERT(q->conn->total_queries == 1, "every request carried by a socket is counted against its limit");
+      VP_WITNESS("opened a connection");
+    }
     VP_WITNESS("sent");
   } else {
     VP_ASSERT(M_cb_count[tok] == 1, "completed exactly once");
